@@ -113,6 +113,11 @@ out.@fieldName = in.@fieldName
 			// always gen
 			fc.HasDeepCopyInto = true
 			fc.HasDeepCopy = true
+
+			// generated methods of map types have value receivers and results
+			if _, ok := x.Underlying().(*types.Map); ok {
+				fc.PtrResultOrParam = false
+			}
 		}
 		if fc.PtrResultOrParam && fc.HasDeepCopyInto {
 			return snippet.T(`
